@@ -61,3 +61,23 @@ def validate(module: str, cfg: str, traces: list, *, diag_cfg: str | None = None
         shutil.rmtree(d, ignore_errors=True)
         for g in gen:
             os.path.exists(g) and os.unlink(g)
+
+
+def relate(observations: list, timeout: int = 900):
+    """Evaluate spec/Relations.tla on every observation record. Returns (rejected indexes (0-based), tlc result)."""
+    if not observations:
+        raise MachineryError("no observations to relate (vacuous)")
+    d = scratch_dir("rel")
+    path = os.path.join(d, "obs.json")
+    try:
+        with open(path, "w") as f:
+            json.dump(observations, f)
+        r = run_tlc("Relations", "cfg/Relations.cfg", workers=1, timeout=timeout, env={"TRACE_FILE": path})
+        acc = {int(m.group(1)) - 1 for m in _ACC.finditer(r.out)}
+        rej = {int(m.group(1)) - 1 for m in re.finditer(r'^<<"REJECT", (\d+)>>', r.out, re.M)}
+        if len(acc) + len(rej) != len(observations):
+            raise MachineryError(f"Relations.tla judged {len(acc) + len(rej)} of {len(observations)} observations:\n" + r.out[-2000:])
+        return sorted(rej), r
+    finally:
+        import shutil
+        shutil.rmtree(d, ignore_errors=True)
